@@ -39,7 +39,7 @@ NP_FRESH = {"abs", "arange", "argmax", "argsort", "array", "cos", "sin", "count_
             "column_stack", "argwhere", "argmin", "cumsum", "prod", "diff", "flatnonzero", "unique", "sort", "meshgrid", "tile", "repeat", "delete", "insert",
             "append", "setdiff1d", "intersect1d", "union1d", "in1d", "all", "any", "allclose", "array_equal", "isnan", "isfinite", "floor", "ceil", "round",
             "exp", "log", "square", "power", "maximum", "minimum", "clip", "einsum", "inner", "cross", "trace", "std", "var", "argpartition", "flip", "roll",
-            "logical_and", "logical_or", "logical_xor", "isclose", "sign", "hypot", "arctan2", "deg2rad", "rad2deg", "tan", "searchsorted", "bincount", "indices"}
+            "logical_and", "logical_or", "logical_xor", "isclose", "sign", "hypot", "arctan2", "deg2rad", "rad2deg", "tan", "searchsorted", "bincount", "indices", "finfo", "iinfo"}
 NP_WRITE_FIRST = {"copyto", "put", "place", "putmask", "fill_diagonal", "put_along_axis"}      # mutate their first argument
 NP_ALIAS = {"squeeze", "transpose", "asarray", "ascontiguousarray", "asfortranarray", "atleast_2d", "ravel", "reshape", "asanyarray"}
 METHOD_FRESH = {"copy", "tolist", "any", "all", "sum", "max", "min", "mean", "format", "lower", "keys", "isnull", "issubset", "basename", "dirname",
